@@ -63,7 +63,10 @@ def build_own(ctx):
 SYMS = ["x", "y", "z", "w", "ab", "alpha", "x_1", "x_12", "theta_0", "_t", "a_b_c", "x_", "Gamma", "t__2"]
 ODD_SYMS = ["(hexs ceb1)", "(hexs 78ceb1)", "(hexs 613c62)", "(hexs 612662)", "(hexs 7b78)", "(hexs 787d)", "(hexs 5c78)",
             "(hexs 785f7b317d)", "(hexs 5c616c7068615f7b317d)", "(hexs 6120 62)".replace(" ", ""), "(hexs )", "(hexs 5f)",
-            "(hexs 785f5f)", "(hexs 457870)", "(hexs 70 69)".replace(" ", ""), "(hexs 696e66)", "(hexs 54727565)"]
+            "(hexs 785f5f)", "(hexs 457870)", "(hexs 70 69)".replace(" ", ""), "(hexs 696e66)", "(hexs 54727565)",
+            # several XML special characters in one name, adjacent and apart: n<<2  x<&y  k>&m  f><g  <<<<  &&  a<b<c  >  &lt;  ><&
+            "(hexs 6e3c3c32)", "(hexs 783c2679)", "(hexs 6b3e266d)", "(hexs 663e3c67)", "(hexs 3c3c3c3c)", "(hexs 2626)",
+            "(hexs 613c623c63)", "(hexs 3e)", "(hexs 266c743b)", "(hexs 3e3c26)"]
 INTS = ["(i 0)", "(i 1)", "(i -1)", "(i 2)", "(i -2)", "(i 3)", "(i 7)", "(i 10)", "(i -13)", "(i 123456789012345678901234567890)"]
 RATS = ["(q 1 2)", "(q -1 2)", "(q 1 3)", "(q 2 3)", "(q -2 3)", "(q 3 7)", "(q 1 123)", "(q -22 7)", "(q 1 10)"]
 CPLX = ["I", "(c 0 1 -1 1)", "(c 0 1 2 1)", "(c 0 1 -2 1)", "(c 1 1 1 1)", "(c 1 1 -1 1)", "(c 1 1 2 1)", "(c -5 1 6 1)",
@@ -345,7 +348,7 @@ CORPUS = [
     # witnesses of the refutation theorems / reported defects
     "(div (c 0 1 2 1) x)", "(add (c 1 1 2 1) (div x y))", "(fs f)", "(add (fs f) (div x y))", "(fset (i 1) (i 2))",
     "(union (fset x) (interval (i 0) (i 1) 0 0))", "-oo", "(mul -oo x)", "(hexs 613c62)", "(hexs 612662)",
-    "(hexfs 663c x)", "(pow x (div y z))", "BOX s78 s79 s7a line power", "(div (i 1) (mul x y))", "(sub y x)",
+    "(hexfs 663c x)", "(hexfs 663e3c67 y)", "(hexs 6e3c3c32)", "(add (i 1) (hexs 783c2679))", "(f1 sin (hexs 6b3e266d))", "(hexs 3c3c3c3c)", "(pow x (div y z))", "BOX s78 s79 s7a line power", "(div (i 1) (mul x y))", "(sub y x)",
     "(sub z (mul (i 2) x))", "(add (mul (q -2 3) x) y)", "(interval (q 1 2) (i 3) 0 0)", "(interval (q 1 2) oo 0 1)",
     "(hexs ceb1)", "(div (hexs ceb1) y)", "(hexs 7b)", "(hexs 787d)", "(hexs 785f7d)",
     # numbers of every kind, alone and as coefficient / exponent / denominator
